@@ -28,25 +28,43 @@ META = {
     "state of the chunk before and after; flush(finalise=False) + write.finalise(chunk.parts) evaluated with the "
     "statement), maybe_write / flush_rhs return values and post-states, what a merge task leaves in its INPUT objects "
     "and what a second execution of the same task on them does (merge_twice_* theorems, compared with the real "
-    "objects), __dask_tokenize__ (token_injective; as found it omits lhs_keep: token_as_found_cex, finding "
-    "dask-token-ignores-lhs-keep).  The model is tied to /repo by an operation-level differential test with a "
+    "objects), __dask_tokenize__ (token_injective; before fix F64 it omitted lhs_keep: token_as_found_cex).  The model is tied to /repo by an operation-level differential test with a "
     "recording writer (exhaustive over small configurations along every merge tree, random larger ones, and real dask "
     "mpu_write graphs under synchronous, threaded and seeded random-topological schedulers).",
-    "note": "Trusted: Lean kernel + {propext, Classical.choice, Quot.sound}; dask executes each task once "
-    "after its dependencies and tasks are pure functions of their inputs: a merge task is NOT repeatable on the same "
-    "objects once it has written or spilled (flush_rhs mutates lhs, the merged chunk shares lhs.parts) - modelled and "
-    "compared (mergeTwice), outside the statement, which quantifies over schedules not over re-executions; the real "
-    "PartsWriter is replaced by a recording fake (plus the library's MPUFileSink end to end); max_write_sz is never "
-    "read by the code: parts are unbounded above (a partition without spare write credits is flushed as one part), not "
-    "part of the property.  dask's Bag.fold shape is third-party behaviour: derived in the model and CHECKED against the "
-    "real graph each run, not proved about dask.  Private operators are looked up defensively: when "
-    "_mpu_append_chunks_op/_merge_and_spill_op/_mpu_collate_op/_finalizer_dask_op are not found under these names the "
-    "direct-drive and re-execution streams are skipped (note in the evidence) and every stream goes through "
-    "MPUChunk.from_dask_bag / mpu_write.  INVENTORY of _mpu.py not mirrored: __repr__; PartsWriter protocol members "
-    "max_write_sz; user_kw forwarding to the callbacks (opaque); dask key names / pure flags of the finaliser (two "
-    "uploads in one graph are checked behaviourally: upload-never-finalised); bytes vs bytearray payloads and buffer "
-    "ownership (oracle caller-buffer-mutated only); deeper aliasing than one task's inputs (a chunk that was the "
-    "left input of an EARLIER unstarted merge shares its parts list with that merge's result).",
+    "note": "Trusted: Lean kernel + {propext, Classical.choice, Quot.sound}; dask executes each task ONCE after its "
+    "dependencies.  RE-EXECUTION, stated precisely: the statement quantifies over partitionings, merge trees and "
+    "schedules = orders in which every task fires exactly once (Spec/C06Schedule.lean: Step consumes the task; "
+    "schedule_result, schedule_step_count).  A task that is executed AGAIN on the same in-memory objects (dask "
+    "recomputing a lost result on a worker that still holds the inputs) is outside it and NOT safe: "
+    "merge_twice_same_when_nothing_written (a merge whose right side has not written and that does not spill leaves "
+    "both inputs as they were and is repeatable) versus merge_twice_differs_cex / merge_twice_started_cex (once it "
+    "spilled or the right side had written, the second execution writes the same part number again with other bytes, "
+    "re-sends left data under a fresh number, or fails its assertion) - the model of the input post-states is compared "
+    "with the real objects on every run (soft tie: recorded, never a violation, because working on defensive copies "
+    "would be just as good); the partition task (_mpu_append_chunks_op) copies its section and is repeatable "
+    "(recompute-differs oracle), the finaliser appends the footer to its input and is not (not modelled).  Pickled "
+    "transport (process / distributed schedulers ship copies) is covered by the transport streams.  WRITER UPPER "
+    "LIMITS: max_part - under main's capacity hypothesis every part number is within [min_part, max_part] "
+    "(main) and there are at most max_part - min_part + 1 parts (parts_count_and_largest_part); without it only flush_rhs "
+    "asserts the range, maybe_write does not: a run can END WITHOUT ERROR with part numbers above max_part "
+    "(max_part_unchecked_cex, replayed each run; finding part-number-above-max-part-unchecked, outside main's "
+    "capacity hypothesis; proposed repair: the range assertion of flush_rhs also in maybe_write); max_write_sz is never read: a chunk is never "
+    "split and a partition that has run out of write credits is flushed as one part (max_write_sz_not_enforced_cex, "
+    "replayed each run); what IS guaranteed is the lower bound on every part but the last.  user_kw reaches both "
+    "callbacks unchanged (oracle user-kw-not-passed-through on the real mpu_write -> MPUFileSink runs).  Buffer "
+    "ownership: MPUChunk.append copies; a producer that overwrites its bytearrays as soon as the partition task has "
+    "returned does not change anything written later (stream producer-reuses-buffers, compared with the model and the "
+    "byte-stream oracle), and the library never writes into a caller's buffer (caller-buffer-mutated).  The real "
+    "PartsWriter is replaced by a recording fake (plus the library's MPUFileSink end to end).  dask's Bag.fold shape "
+    "is third-party behaviour: derived in the model and CHECKED against the real graph each run, not proved about dask.  "
+    "Private operators are looked up defensively: when _mpu_append_chunks_op/_merge_and_spill_op/_mpu_collate_op/"
+    "_finalizer_dask_op are not found under these names the direct-drive and re-execution streams are skipped (note in "
+    "the evidence) and every stream goes through MPUChunk.from_dask_bag / mpu_write.  __dask_tokenize__ as repaired by "
+    "F64 (token_injective) is the live model: tokeq compares all pairs incl. sections that differ in lhs_keep only.  "
+    "INVENTORY of _mpu.py not mirrored: __repr__; dask key names / pure flags of the finaliser (two uploads in one graph "
+    "are checked behaviourally: upload-never-finalised); re-execution of the finaliser; deeper aliasing than one "
+    "task's inputs (a chunk that was the left input of an EARLIER unstarted merge shares its parts list with that "
+    "merge's result).",
     "technique": "Lean 4 invariant + refinement proof by induction over merge trees; differential correspondence",
     "design_ref": "DESIGN.md §4 C06",
 }
@@ -369,7 +387,8 @@ def parse_case(line: str) -> Case:
 
 
 # ------------------------------------------------------------------ real code: direct drive along the tree
-def real_direct(case: Case, mutable: bool = False, shared=None, containers: int = 0, tkind: int = 0, wkind: int = 0):
+def real_direct(case: Case, mutable: bool = False, shared=None, containers: int = 0, tkind: int = 0, wkind: int = 0,
+                scribble: bool = False):
     """returns (output string, info dict for the oracle).
 
     mutable: chunk / header / footer payloads are bytearrays (allowed by SomeData); `shared` is a dict that
@@ -377,6 +396,7 @@ def real_direct(case: Case, mutable: bool = False, shared=None, containers: int 
     from odc.geo.cog import _mpu as M
 
     OPS = priv_ops(M)      # callers use real_direct only when the operators exist (see fallback_mode)
+    info_scribbled = []
     bufs = shared if shared is not None else {}
 
     def container(idx):
@@ -414,12 +434,19 @@ def real_direct(case: Case, mutable: bool = False, shared=None, containers: int 
                     else (c for c in chunks))
             mpus = [mpu] if kind in (0, 1) else iter([mpu])
             (out,) = OPS["_mpu_append_chunks_op"](mpus, part, write=w, spill_sz=case.spill)
+            if scribble and mutable:
+                # the producer re-uses its buffers as soon as the partition task has returned: MPUChunk.append must
+                # have taken a copy, nothing written later may change (SomeData allows bytearray)
+                for d, _cid in chunks:
+                    if isinstance(d, bytearray):
+                        d[:] = b"\xee" * len(d)
+                info_scribbled.append(len(chunks))
             return transport(out, tkind)
         l = ev(t[1])
         r = ev(t[2])
         return transport(OPS["_merge_and_spill_op"](l, r, write=w, spill_sz=case.spill), tkind)
 
-    info = {"w": w, "seen": None, "exc": None, "bufs": bufs}
+    info = {"w": w, "seen": None, "exc": None, "bufs": {} if scribble else bufs}
     try:
         root = ev(case.tree)
         seen = list(root.observed)
@@ -456,7 +483,18 @@ def real_direct(case: Case, mutable: bool = False, shared=None, containers: int 
 def oracle(R: Run, case: Case, out: str, info, via: str):
     """The statement of C06 evaluated on what the real code did (independent of the model)."""
     if not case.capacity_ok():
-        return  # outside the property's configuration space (not enough part numbers)
+        # outside the property's configuration space (not enough part numbers).  Observation only: does the run end without
+        # an error although a part number above max_part was handed to the writer (only flush_rhs asserts the range)?
+        # Lean: max_part_unchecked_cex.  Too few part numbers must end in an error, not in an upload with numbers the
+        # writer does not allow.
+        w_ = info.get("w")
+        if info.get("exc") is None and w_ is not None and getattr(w_, "calls", None):
+            above = sorted(p for p, _ in w_.calls if p > case.max_part)
+            R.oracle(not above, "part-number-above-max-part-unchecked", {"line": case.line(), "via": via},
+                     f"the writer allows part numbers up to {case.max_part}; the run ended without error after writing parts "
+                     f"{above} (the partitions need more numbers than the writer has; only flush_rhs asserts the range, "
+                     "maybe_write does not)", sig="max-part-unchecked")
+        return
     cd = {"line": case.line(), "via": via}
     if info["exc"] is not None:
         R.oracle(False, f"mpu-write-fails:{type(info['exc']).__name__}", cd,
@@ -702,17 +740,18 @@ def rerun_soft_check(R, soft):
                        f"violation; the task's result and writer calls are compared as `rerun1`); first: {diff[0][0]}")
 
 
-def tokeq_case(R, min_write, min_part, a, b):
-    """do the roots of two evaluations get the same dask token?  a, b = (spill, wpc, mark_final, tree)"""
+def tokeq_case(R, min_part, a, b):
+    """do the roots of two evaluations get the same dask token?  a, b = (min_write_sz, spill, wpc, mark_final, tree);
+    lhs_keep of a section is its writer's min_write_sz, so pairs that differ in lhs_keep only are included"""
     from dask.base import tokenize
     from odc.geo.cog import _mpu as M
-    line = (f"c06 tokeq {min_write} {min_part} " + " ".join(
-        f"{sp} {wpc} {bool_s(mf)} {enc_tree(t)}" for sp, wpc, mf, t in (a, b)))
+    line = (f"c06 tokeq {min_part} " + " ".join(
+        f"{mw} {sp} {wpc} {bool_s(mf)} {enc_tree(t)}" for mw, sp, wpc, mf, t in (a, b)))
 
     def f():
         roots = []
-        for sp, wpc, mf, t in (a, b):
-            w = RecWriter(min_write, min_part, min_part + 100000)
+        for mw, sp, wpc, mf, t in (a, b):
+            w = RecWriter(mw, min_part, min_part + 100000)
             try:
                 roots.append(real_eval_tree(M, w, t, sp, wpc, mf, len(tree_leaves(t)), {"idx": 0, "off": 0, "cid": 0}))
             except Exception:  # pylint: disable=broad-except
@@ -720,7 +759,7 @@ def tokeq_case(R, min_write, min_part, a, b):
         return bool_s(tokenize(roots[0]) == tokenize(roots[1]))
 
     out = R.corr(line, f)
-    R.sigs[-1] = f"tokeq|{out}|same-args={bool_s(a == b)}"
+    R.sigs[-1] = f"tokeq|{out}|same-args={bool_s(a == b)}|same-lhs-keep={bool_s(a[0] == b[0])}"
     return out
 
 
@@ -1013,9 +1052,20 @@ def real_file_sink(R: Run, cfg, subs, sched):
                     cid += 1
                 parts.append(delayed(lambda x: x, pure=False)(items))
             bags.append(dask.bag.from_delayed(parts))
-        seen = []
-        mk_header = None if hdr is None else (lambda obs, _b=hdr_bytes(hdr): (seen.append(list(obs)), _b)[1])
-        mk_footer = None if ftr is None else (lambda obs, _b=ftr_bytes(ftr): (seen.append(list(obs)), _b)[1])
+        seen, kws = [], []
+        # user_kw: the same keyword arguments reach BOTH callbacks (`op(observed, **user_kw)`); the sizes travel that way
+        user_kw = {"hn": hdr, "fn": ftr, "tag": ("t", 1)} if (hdr is not None or ftr is not None) and sched == "sync" else None
+
+        def cb(which):
+            def f(obs, **kw):
+                seen.append(list(obs))
+                kws.append(kw)
+                n = kw[which] if user_kw is not None else (hdr if which == "hn" else ftr)
+                return hdr_bytes(n) if which == "hn" else ftr_bytes(n)
+            return f
+
+        mk_header = None if hdr is None else cb("hn")
+        mk_footer = None if ftr is None else cb("fn")
         leaves = [l for sub in subs for l in sub]
         tree = ("l", leaves[0])
         for l in leaves[1:]:
@@ -1023,11 +1073,13 @@ def real_file_sink(R: Run, cfg, subs, sched):
         case = Case(True, min_write, min_part, max_part, spill, wpc, hdr, ftr, tree)
         cd = {"line": mpuw_line(cfg, subs), "via": f"file-sink:{sched}"}
         try:
-            M.mpu_write(bags if len(bags) > 1 else bags[0], w, mk_header=mk_header, mk_footer=mk_footer,
+            M.mpu_write(bags if len(bags) > 1 else bags[0], w, mk_header=mk_header, mk_footer=mk_footer, user_kw=user_kw,
                         writes_per_chunk=wpc, spill_sz=spill).compute(scheduler="synchronous" if sched == "sync" else "threads")
         except Exception as e:  # pylint: disable=broad-except
             R.oracle(False, f"mpu-write-fails:{type(e).__name__}", cd, f"mpu_write to MPUFileSink failed with {e!r}")
             return
+        R.oracle(all(k == (user_kw or {}) for k in kws), "user-kw-not-passed-through", cd,
+                 f"callbacks received {kws[:2]}, user_kw={user_kw}", sig="user-kw|" + ("given" if user_kw else "none"))
         got = open(dst, "rb").read() if os.path.exists(dst) else None
         want = case.stream()
         R.oracle(got == want, "file-sink-object-differs", cd,
@@ -1163,7 +1215,7 @@ def _domain_desc(tier):
             "x header {none,empty,5} x footer {none,empty,4} x min_part {0,1,5} x partition container {list,tuple,iterator,generator}, min_write_sz 10; "
             + ("quick: 3 partitions (inner ones 1 chunk), every 7th configuration"
                if tier == "quick" else
-               "thorough: 1-2 partitions complete, 3 partitions every 3rd, 4 partitions (<=5 chunks) every 5th configuration"))
+               "thorough: 1-2 partitions complete, 3 partitions every 5th, 4 partitions (<=5 chunks) every 9th configuration"))
 
 
 def _enum(tier):
@@ -1174,7 +1226,7 @@ def _enum(tier):
     maxp = 3 if quick else 4
     for np_ in range(1, maxp + 1):
         shapes = all_trees(np_)
-        stride = 7 if quick else {1: 1, 2: 1, 3: 3, 4: 5}[np_]
+        stride = 7 if quick else {1: 1, 2: 1, 3: 5, 4: 9}[np_]
         for leaves in itertools.product(leaf_opts, repeat=np_):
             if quick and np_ == 3 and any(len(l) == 2 for l in leaves[1:-1]):
                 continue
@@ -1362,6 +1414,10 @@ def run(R: Run):
         Case(True, 10, 1, 100, 1, 2, None, None, ("n", ("l", [3, 10]), ("l", [25]))),            # F8
         Case(True, 10, 5, 100, 20, 1, 5, None, ("n", ("l", [30]), ("l", [30]))),                 # F9
         Case(True, 10, 5, 100, 10, 2, None, 4, ("n", ("n", ("l", [25, 25]), ("l", [0])), ("l", [25, 3]))),
+        # Lean max_write_sz_not_enforced_cex: a 40-byte chunk goes out as one 32-byte part, three credits stay unused
+        Case(True, 4, 1, 100, 8, 4, None, None, ("n", ("l", [40]), ("l", [8]))),
+        # Lean max_part_unchecked_cex: writer range 1..3, two partitions x three credits: parts 5 and 6 written, no error
+        Case(True, 2, 1, 3, 2, 3, None, None, ("n", ("l", [8]), ("l", [8]))),
     ]
     for c in corpus:
         res = []
@@ -1428,11 +1484,12 @@ def run(R: Run):
         mutable = rng.random() < 0.4
         tk = rng.choice([0, 0, 1, 1, 2, 3])
         wk = int(rng.random() < 0.25)
-        o, info = real_direct(c, mutable=mutable, containers=rng.getrandbits(16), tkind=tk, wkind=wk)
-        R.corr(c.line(), lambda: o, sig=sig_of(c, o) + ("|bytearray" if mutable else "")
+        scrib = mutable and rng.random() < 0.4
+        o, info = real_direct(c, mutable=mutable, containers=rng.getrandbits(16), tkind=tk, wkind=wk, scribble=scrib)
+        R.corr(c.line(), lambda: o, sig=sig_of(c, o) + ("|bytearray" if mutable else "") + ("|producer-reuses-buffers" if scrib else "")
                + (f"|transport={TRANSPORTS[tk]}" if tk else "") + ("|writer-with-len" if wk else ""))
         oracle(R, c, o, info, "direct" + (f":transport={TRANSPORTS[tk]}" if tk else "") + (":writer-with-len" if wk else ""))
-        if mutable and rng.random() < 0.5:
+        if mutable and not scrib and rng.random() < 0.5:
             # the same buffer objects (chunks, cached header/footer) go through a second upload
             o2, info2 = real_direct(c, mutable=True, shared=info["bufs"])
             R.corr(c.line(), lambda: o2, sig="second-upload-shared-buffers")
@@ -1480,7 +1537,7 @@ def run(R: Run):
                                pick_tree(rng, leaves))
     for _ in range(R.pick(400, 2000)):
         min_write = rng.choice([10, 4])
-        mk = lambda: (rng.choice([0, 1, min_write, 1000]), rng.choice([1, 2]), rng.random() < 0.5,
+        mk = lambda: (min_write, rng.choice([0, 1, min_write, 1000]), rng.choice([1, 2]), rng.random() < 0.5,
                       pick_tree(rng, [[rng.choice([0, 3, min_write, 3 * min_write])
                                        for _ in range(rng.choice([1, 2]))] for _ in range(rng.choice([1, 2, 3]))]))
         a = mk()
@@ -1489,12 +1546,12 @@ def run(R: Run):
             b = a
         elif r_ < 0.7:
             b = list(a)
-            k = rng.randrange(4)
-            b[k] = mk()[k]
+            k = rng.randrange(5)
+            b[k] = mk()[k] if k else rng.choice([4, 10, 11, 20])     # k == 0: the same stream for a writer with another min_write_sz
             b = tuple(b)
         else:
             b = mk()
-        tokeq_case(R, min_write, rng.choice([0, 1, 5]), a, b)
+        tokeq_case(R, rng.choice([0, 1, 5]), a, b)
     token_lhs_keep(R)
     # no bag at all: mpu_write([]) fails while the graph is built
     from odc.geo.cog import _mpu as M0
@@ -1502,7 +1559,7 @@ def run(R: Run):
            sig="mpuw|no-bags")
     mark("dask")
     # ---------------- real dask graphs (mpu_write / from_dask_bag / fold / collate / finaliser)
-    ndask = R.pick(60, 400)
+    ndask = R.pick(60, 300)
     for i in range(ndask):
         min_write = rng.choice([4, 10])
         nsub = rng.choice([1, 1, 2, 3])
@@ -1607,7 +1664,7 @@ def run(R: Run):
             R.corr(line_, lambda: direct_bunch(*a), sig=f"seeds|gen_bunch-direct|bags={len(nparts)}")
     mark("substreams")
     # ---------------- mpu_write over several bags, each sub-stream from its own size class
-    for i in range(R.pick(80, 800)):
+    for i in range(R.pick(80, 600)):
         cfg, subs = substream_case(rng)
         sched = ["sync", "sync", "threads", "random"][i % 4]
         tk = rng.choice([0, 0, 1])
@@ -1618,7 +1675,7 @@ def run(R: Run):
         R.count("dask-substream-classes")
     mark("processes")
     # ---------------- the real graph under the process-based scheduler (everything pickled, writer state on disk)
-    for i in range(R.pick(3, 20)):
+    for i in range(R.pick(3, 10)):
         min_write = rng.choice([4, 10])
         subs = [[[rng.choice([3, min_write, 2 * min_write + 5, rng.randint(1, 40)]) for _ in range(rng.choice([1, 2, 3]))]
                  for _ in range(rng.randint(2, 6))] for _ in range(rng.choice([1, 2, 3]))]
